@@ -13,3 +13,5 @@ cat $W/p.?? | awk -F'\t' '{print $NF}' > $W/impl
 cat $W/p.??.out > $W/model
 wc -l $W/cases
 paste -d'\n' $W/impl $W/model | awk '{gsub(/ERR [A-Za-z0-9_]+/,"ERR")} NR%2==1{a=$0} NR%2==0{ if (a!=$0) {n++; if (n<=2000) {na=split(a,x," \\| "); nb=split($0,y," \\| "); for(i=1;i<=na;i++) if (x[i]!=y[i]) {print substr(x[i],1,60) "  ||  " substr(y[i],1,60); break}}}} END{print n+0" mismatches"}' | sort | uniq -c | sort -rn | head -${4:-30}
+# direct oracles of ./check on the implementation column (never PANIC, @x/@p/@n, RT-BAD, ORACLE-BAD): last line = summary
+SHOW=${SHOW:-3} python3 $(dirname $0)/t1oracle_cases.py $W/cases | tail -n 4 | cut -c1-400
